@@ -27,16 +27,19 @@ where
         let change =
             ReadWriteBaseVec::<I, T>::parse_change_data(&mut c, Self::SIZE_OF_T, |b| S::read(b))?;
 
-        // No overlay map: truncated values ride in `pushed` and `stored_len`
-        // is clamped to where disk still agrees with the rolled-back state.
-        let (stored_len, pushed) = if change.truncated_values.is_empty() {
-            (change.prev_stored_len, change.prev_pushed)
-        } else {
-            let agree_at = change.truncated_start.min(self.real_stored_len());
-            let mut buf = change.truncated_values;
-            buf.extend(change.prev_pushed);
-            (agree_at, buf)
-        };
+        // No overlay map: values the disk no longer holds ride in `pushed`, and
+        // `stored_len` is clamped to where disk still agrees with the rolled-back
+        // state. The current logical contents are `disk[..stored_len] ++ pushed`
+        // (an earlier rollback may already have re-queued a tail in `pushed`), so
+        // the part of `[.., truncated_start)` that is not on disk is taken from there.
+        let stored_len = change
+            .truncated_start
+            .min(self.stored_len())
+            .min(self.real_stored_len());
+        let kept = (change.truncated_start - stored_len).min(self.base.pushed().len());
+        let mut pushed = self.base.pushed()[..kept].to_vec();
+        pushed.extend(change.truncated_values);
+        pushed.extend(change.prev_pushed);
         self.base
             .apply_rollback(change.prev_stamp, stored_len, pushed);
 
